@@ -80,13 +80,14 @@ type clSeen struct {
 }
 
 type clObs struct {
-	seen     []clSeen
-	evs      []ev
-	waits    []time.Duration
-	waitErrs []error
-	getBody  int
-	err      error
-	panicked any
+	seen          []clSeen
+	evs           []ev
+	waits         []time.Duration
+	waitErrs      []error
+	getBody       int
+	err           error
+	panicked      any
+	rejectedReads int
 }
 
 // hdrWant decodes the spec's header expectation.
@@ -149,9 +150,12 @@ func runClient(t *byteTable, b *clBeh, seg func(n int) []int) (o clObs) {
 
 	attempt := 0
 	rejectNext := false
+	cbCancel := false  // the next dispatched event's callback cancels the context
+	rejectedReads := 0 // Read calls on the body of a response the validator rejected
 	rt := rtFunc(func(q *http.Request) (*http.Response, error) {
 		i := attempt
 		attempt++
+		cbCancel = false // a connection that dispatched no event cancelled nothing
 		s := clSeen{}
 		if vs, ok := q.Header["Last-Event-Id"]; ok {
 			s.hdrPresent, s.nvalues = true, len(vs)
@@ -193,11 +197,18 @@ func runClient(t *byteTable, b *clBeh, seg func(n int) []int) (o clObs) {
 			case "cancel_eof":
 				rd.end = io.EOF
 				rd.onEnd = cancel
+			case "cancel_cb":
+				rd.end = io.EOF
+				cbCancel = true
 			case "cancel":
 				rd.end = context.Canceled
 				rd.onEnd = cancel
 			}
-			return &http.Response{StatusCode: 200, Header: http.Header{"Content-Type": {"text/event-stream"}}, Body: io.NopCloser(rd), Request: q}, nil
+			var body io.Reader = rd
+			if st.O == "reject" {
+				body = readerFunc(func(p []byte) (int, error) { rejectedReads++; return rd.Read(p) })
+			}
+			return &http.Response{StatusCode: 200, Header: http.Header{"Content-Type": {"text/event-stream"}}, Body: io.NopCloser(body), Request: q}, nil
 		}
 		fatal("bad step %q", st.O)
 		return nil, nil
@@ -228,13 +239,21 @@ func runClient(t *byteTable, b *clBeh, seg func(n int) []int) (o clObs) {
 	c.OnRetry = func(err error, d time.Duration) {
 		o.waits = append(o.waits, d)
 		o.waitErrs = append(o.waitErrs, err)
-		if (cancelWait && len(o.waits) == len(b.Waits)) || d > time.Minute {
+		// more retries than the specification has at all: a loop that never reaches the transport again must still end
+		if (cancelWait && len(o.waits) == len(b.Waits)) || d > time.Minute || len(o.waits) > len(b.Waits)+3 {
 			cancel()
 		}
 	}
 	cn := c.NewConnection(req)
-	cn.SubscribeToAll(func(e sse.Event) { o.evs = append(o.evs, ev{e.LastEventID, e.Type, e.Data}) })
+	cn.SubscribeToAll(func(e sse.Event) {
+		o.evs = append(o.evs, ev{e.LastEventID, e.Type, e.Data})
+		if cbCancel {
+			cbCancel = false
+			cancel()
+		}
+	})
 	o.err = cn.Connect()
+	o.rejectedReads = rejectedReads
 	return
 }
 
@@ -309,7 +328,7 @@ func checkClient(res *Result, t *byteTable, b *clBeh, o clObs, f clFocus, segNam
 				ok = errors.Is(o.err, errGetBody)
 			case "exhausted":
 				ok = isCE && errClassOK(o.err, b.Result.Err)
-				if !ok && len(b.Script) > 0 && b.Script[len(b.Script)-1].End == "cancel_eof" {
+				if last := b.Script[len(b.Script)-1].End; !ok && len(b.Script) > 0 && (last == "cancel_eof" || last == "cancel_cb") {
 					ok = errors.Is(o.err, context.Canceled) // cancelled at the very end: either reason is acceptable
 				}
 			}
@@ -319,6 +338,11 @@ func checkClient(res *Result, t *byteTable, b *clBeh, o clObs, f clFocus, segNam
 		}
 		if len(o.seen) != b.Attempts && !(cancelWait && len(o.seen) == b.Attempts+1) {
 			fail("client:attempts", "%d attempts were made, spec: %d", len(o.seen), b.Attempts)
+		}
+		// "returns at once ... when the response validator fails": the rejected response's body may be a stream the server
+		// keeps open - reading it (to drain it, say) would block Connect for as long
+		if o.rejectedReads > 0 {
+			fail("client:rejected-body-read", "the body of a response the validator rejected was read (%d Read calls): on a live stream Connect would block instead of returning at once", o.rejectedReads)
 		}
 	}
 	if f.header {
@@ -357,7 +381,17 @@ func checkClient(res *Result, t *byteTable, b *clBeh, o clObs, f clFocus, segNam
 		for _, e := range b.Events {
 			w = append(w, ev{t.expand(e.ID), t.expand(e.Type), t.expand(e.Data)})
 		}
-		if !evsEq(o.evs, w) {
+		cbc := false
+		for _, st := range b.Script {
+			cbc = cbc || st.End == "cancel_cb"
+		}
+		switch {
+		case cbc:
+			// what is dispatched after a callback cancelled the context is left open: a prefix, at least the cancelling event
+			if len(o.evs) > len(w) || !evsEq(o.evs, w[:len(o.evs)]) || (len(w) > 0 && len(o.evs) == 0) {
+				fail("client:events", "callbacks saw %s, spec: a non-empty prefix of %s", showEvs(o.evs), showEvs(w))
+			}
+		case !evsEq(o.evs, w):
 			fail("client:events", "callbacks saw %s, spec %s", showEvs(o.evs), showEvs(w))
 		}
 	}
@@ -533,3 +567,7 @@ func cmdClientElapsed(args []string) {
 func init() {
 	commands["client-elapsed"] = cmdClientElapsed
 }
+
+type readerFunc func(p []byte) (int, error)
+
+func (f readerFunc) Read(p []byte) (int, error) { return f(p) }
